@@ -395,3 +395,196 @@ def _contains_sp(m, g):
         if a.get("k") == "Closure" and (a.get("sp") or "").split(":")[:3] == gs.split(":")[:3]:
             return True
     return False
+
+
+# ----------------------------------------------------------------------------- C14.g
+class _PUnx(Exception):
+    pass
+
+
+def _eval_reg_predicate(F, path, regnum, tn, classes, depth=0):
+    """value of the `&self -> bool` method `path` of Register on the register with number regnum (concrete evaluation of a pure predicate over a 32-element domain)"""
+    if depth > 4:
+        raise _PUnx("predicate delegation too deep")
+    num2var = {n: v for v, n in tn.items()}
+    me = num2var[regnum]
+    f = F.fn(path)
+    env = {}
+
+    def strip(e):
+        e = peel(e)
+        while True:
+            if e.get("k") in ("DropTemps", "Use"):
+                e = peel(e["e"])
+            elif e.get("k") == "AddrOf" or (e.get("k") == "Unary" and e.get("op") == "Deref"):
+                e = peel(e.get("e") or e.get("a"))
+            elif e.get("k") == "Block" and not e.get("stmts") and e.get("expr") is not None:
+                e = peel(e["expr"])
+            else:
+                return e
+
+    def val(e):
+        """-> ('reg', variant) | int | bool | ('set', frozenset of numbers)"""
+        e = strip(e)
+        k = e.get("k")
+        if k == "Block":
+            for st in e.get("stmts", []):
+                if st.get("k") == "Let" and st["pat"].get("k") == "PBinding" and st.get("init") is not None:
+                    env[st["pat"]["name"]] = val(st["init"])
+                else:
+                    raise _PUnx("statement in a predicate body")
+            if e.get("expr") is None:
+                raise _PUnx("block without a value")
+            return val(e["expr"])
+        if k == "Path" and e.get("res") == "self":
+            return ("reg", me)
+        if k == "Path" and e.get("res_kind") == "Local":
+            if e["res"] in env:
+                return env[e["res"]]
+            raise _PUnx(f"local `{e['res']}`")
+        if k == "Path" and (e.get("res") or "").startswith(REG + "::"):
+            return ("reg", short(e["res"]))
+        lv = lit_value(e)
+        if isinstance(lv, bool) or isinstance(lv, int):
+            return lv
+        if k == "Cast":
+            return val(e["e"])
+        if k == "Unary" and e.get("op") == "Not":
+            return not val(e["a"])
+        if k == "Binary":
+            op = e["op"]
+            if op == "And":
+                return bool(val(e["a"])) and bool(val(e["b"]))
+            if op == "Or":
+                return bool(val(e["a"])) or bool(val(e["b"]))
+            a, b = val(e["a"]), val(e["b"])
+            if op in ("Eq", "Ne"):
+                r = a == b
+                return r if op == "Eq" else not r
+            if isinstance(a, int) and isinstance(b, int):
+                return {"Lt": a < b, "Le": a <= b, "Gt": a > b, "Ge": a >= b}[op]
+            raise _PUnx(f"comparison {op}")
+        if k == "Struct" and (e.get("path") or e.get("res") or "").split("<")[0].endswith("Range"):
+            fs = {x["name"]: val(x["e"]) for x in e["fields"]}
+            return ("set", frozenset(range(fs["start"], fs["end"])))
+        if k == "Call" and len(e["args"]) == 2 and (callee_of(e) or declared_callee(e) or "").endswith("RangeInclusive::<Idx>::new"):
+            return ("set", frozenset(range(val(e["args"][0]), val(e["args"][1]) + 1)))
+        if k == "Array":
+            vs = [val(x) for x in e["elems"]]
+            return ("set", frozenset(tn[v[1]] if isinstance(v, tuple) else v for v in vs))
+        if k in ("MethodCall", "Call"):
+            c = callee_of(e) or ""
+            recv, args = call_recv_args(e)
+            nm = e.get("name") or short(c)
+            if c == F.method(REG, "to_num") or nm == "to_num":
+                r = val(recv if recv is not None else args[0])
+                if isinstance(r, tuple) and r[0] == "reg":
+                    return tn[r[1]]
+            if nm == "contains" and recv is not None:
+                s_ = val(recv)
+                x = val(args[0])
+                if isinstance(x, tuple) and x[0] == "reg":
+                    x = tn[x[1]]
+                if isinstance(s_, tuple) and s_[0] == "set":
+                    return x in s_[1]
+            if nm in classes and not args:
+                return ("set", frozenset(tn[v] for v in classes[nm][0]))
+            if c in F.fns and recv is not None and strip(recv).get("res") == "self" and not args:
+                return _eval_reg_predicate(F, c, regnum, tn, classes, depth + 1)
+            raise _PUnx(f"call {c or nm}")
+        if k == "Match":
+            sc = val(e["scrut"])
+            for arm in e["arms"]:
+                if _pmatch(arm["pat"], sc):
+                    if arm.get("guard") is not None and not val(arm["guard"]):
+                        continue
+                    return val(arm["body"])
+            raise _PUnx("no arm")
+        if k == "If" and e.get("else") is not None:
+            return val(e["then"]) if val(e["cond"]) else val(e["else"])
+        raise _PUnx(f"{k} `{ekey(e)[:40]}`")
+
+    def _pmatch(p, v):
+        k = p.get("k")
+        if k == "PWild" or k == "PBinding":
+            return True
+        if k == "POr":
+            return any(_pmatch(x, v) for x in p["pats"])
+        if k in ("PRef", "PDeref"):
+            return _pmatch(p["pat"], v)
+        if k == "PRange":
+            lo, hi = lit_value(p.get("lo") or {}), lit_value(p.get("hi") or {})
+            if isinstance(v, int) and isinstance(lo, int) and isinstance(hi, int):
+                return lo <= v <= hi if p.get("inclusive", True) else lo <= v < hi
+            raise _PUnx("range pattern")
+        if k == "PExpr" or k == "PLit":
+            x = peel(p.get("e") or p)
+            lv = lit_value(x)
+            if isinstance(lv, int) and not isinstance(lv, bool):
+                return v == lv
+            if (x.get("res") or "").startswith(REG + "::"):
+                return v == ("reg", short(x["res"]))
+        res = p.get("res") or ""
+        if res.startswith(REG + "::"):
+            return v == ("reg", short(res))
+        raise _PUnx(f"pattern {k}")
+
+    r = val(f["hir"]["value"])
+    if not isinstance(r, bool):
+        raise _PUnx("predicate does not evaluate to a bool")
+    return r
+
+
+PREDICATE_CLASS = {"is_const_zero": ["const_zero"], "is_stack_pointer": None}   # None: the singleton sp (x2), no class table of its own
+
+
+@rule("C14", "C14.g.register-predicates-are-class-tables", floor=2)
+def c14g(F, R):
+    """every per-register predicate (`fn is_xxx(&self) -> bool` on Register) selects exactly an ABI class - it is evaluated on all 32 registers and compared with the class of its name (`is_saved` <-> `saved_set`), or with the singleton it names: a second, hand-written encoding of a class that drops or adds a member makes two registers of one class behave differently"""
+    ref = abi()
+    tn, _ = to_num_table(F)
+    classes = class_sets(F)
+    preds = []
+    for i in F.impls:
+        if i["self_ty"] != REG:
+            continue
+        for it in i["items"]:
+            g = F.fns.get(it["path"])
+            if not g or "hir" not in g or (g.get("exp") or "").startswith("Derive"):
+                continue
+            if (g.get("ret") or g.get("output") or "") != "bool" and not it["name"].startswith("is_"):
+                continue
+            ps = g["hir"].get("params") or []
+            if len(ps) != 1 or not it["name"].startswith("is_"):
+                continue
+            preds.append((it["name"], it["path"]))
+    for name, path in sorted(preds):
+        sp = F.fn(path)["sp"]
+        try:
+            got = {n for n in range(32) if _eval_reg_predicate(F, path, n, tn, classes)}
+        except (_PUnx, KeyError, TypeError) as ex:
+            R.bad(f"{name}|unextractable", f"UNEXTRACTABLE: cannot evaluate Register::{name} on every register: {ex}", sp)
+            continue
+        want = None
+        if name in PREDICATE_CLASS and PREDICATE_CLASS[name] is None:
+            want, wname = {2}, "the stack pointer x2"
+        elif name in PREDICATE_CLASS:
+            want, wname = set().union(*[set(ref["classes"][p]) for p in PREDICATE_CLASS[name]]), "+".join(PREDICATE_CLASS[name])
+        else:
+            stem = name[3:]
+            for cname, parts in CLASS_OF.items():
+                if cname in (stem + "_set", stem.rstrip("s") + "_set", stem + "s_set"):
+                    want, wname = set().union(*[set(ref["classes"][p]) for p in parts]), cname
+            if want is None:
+                for cname, parts in CLASS_OF.items():
+                    w = set().union(*[set(ref["classes"][p]) for p in parts])
+                    if w == got:
+                        want, wname = w, cname
+        if want is None:
+            near = min(CLASS_OF.items(), key=lambda kv: len(set().union(*[set(ref["classes"][p]) for p in kv[1]]) ^ got))
+            w = set().union(*[set(ref["classes"][p]) for p in near[1]])
+            R.bad(f"{name}|no-class", f"Register::{name} holds for {sorted(got)}, which is no ABI class; nearest is {near[0]} (differs by {sorted(w ^ got)}): a predicate that splits a class makes same-class registers behave differently", sp)
+        elif got == want:
+            R.ok(name, detail=f"Register::{name} = {wname} = {sorted(got)}", where=sp)
+        else:
+            R.bad(name, f"Register::{name} holds for {sorted(got)}, but {wname} is {sorted(want)} (missing {sorted(want - got)}, extra {sorted(got - want)}): the lints that ask the predicate treat x{sorted(want ^ got)[0]} differently from the rest of its class", sp)
